@@ -36,35 +36,21 @@ type Prover struct {
 	Sum func(callee *ssa.Function) *IntSummary // value summaries of module functions (may be nil)
 	// intBits is the width of int on the target (GOARCH).
 	intBits int
-	epoch   map[ssa.Instruction]int
+	canon   map[*ssa.UnOp]*ssa.UnOp
+	nilSum  func(callee *ssa.Function) []paramCond // nil-return conditions of module functions
 }
 
 func newProver(p *Prog, fn *ssa.Function) *Prover {
 	k := newKeyer()
 	k.fwdLocal = true
-	pr := &Prover{P: p, Fn: fn, K: k, intBits: 64, epoch: map[ssa.Instruction]int{}}
+	pr := &Prover{P: p, Fn: fn, K: k, intBits: 64, canon: map[*ssa.UnOp]*ssa.UnOp{}}
+	pr.nilSum = func(f *ssa.Function) []paramCond { return nilReturnConds(p, f) }
 	if p.Cfg.GOARCH == "386" {
 		pr.intBits = 32
 	}
-	// epochs: loads of the same address in the same block with no side effect in between are equal
-	for _, b := range fn.Blocks {
-		e := 0
-		for _, in := range b.Instrs {
-			switch x := in.(type) {
-			case *ssa.Store, *ssa.MapUpdate, *ssa.Send, *ssa.Go, *ssa.Defer, *ssa.RunDefers, *ssa.Select:
-				e++
-			case *ssa.Call:
-				if _, isB := x.Call.Value.(*ssa.Builtin); !isB {
-					e++
-				} else if b := x.Call.Value.(*ssa.Builtin); b.Name() == "copy" || b.Name() == "append" || b.Name() == "delete" || b.Name() == "clear" {
-					e++
-				}
-			}
-			pr.epoch[in] = e
-		}
-	}
 	k.loadKey = func(ld *ssa.UnOp, addrKey string) string {
-		return fmt.Sprintf("ld(%s)@b%d.%d", addrKey, ld.Block().Index, pr.epoch[ld])
+		c := pr.canonLoad(ld)
+		return fmt.Sprintf("ld(%s)@%s", addrKey, c.Name())
 	}
 	return pr
 }
@@ -204,6 +190,12 @@ func (pr *Prover) linLen(s ssa.Value, what string) lin {
 				hi = pr.lenOfOperand(x.X)
 			}
 			return lin{hi.T, hi.Off - loOff}
+		}
+		if x.High != nil {
+			hi, lo := pr.lin(x.High), pr.lin(x.Low)
+			if hi.T == lo.T {
+				return lin{zeroTerm, hi.Off - lo.Off}
+			}
 		}
 	case *ssa.MakeSlice:
 		return pr.lin(x.Len)
@@ -562,6 +554,11 @@ func (pr *Prover) lenFacts(fs *factSet, s ssa.Value, depth int) {
 			}
 		}
 	case *ssa.Call:
+		// EXT hash.Hash.Sum(b) appends to b: len(result) >= len(b)
+		if x.Call.IsInvoke() && x.Call.Method.Name() == "Sum" && len(x.Call.Args) == 1 {
+			fs.le(pr.linLen(x.Call.Args[0], "len"), lin{"len(" + pr.K.Key(s) + ")", 0}, 0, "EXT hash.Hash.Sum appends")
+			pr.lenFacts(fs, x.Call.Args[0], depth+1)
+		}
 		// append(x, ...) : len(result) >= len(x)
 		if isBuiltinCall(x, "append") && len(x.Call.Args) >= 1 {
 			fs.le(pr.linLen(x.Call.Args[0], "len"), lin{"len(" + pr.K.Key(s) + ")", 0}, 0, "append grows")
@@ -679,6 +676,7 @@ func (pr *Prover) collect(at ssa.Instruction, operands ...ssa.Value) *factSet {
 			p := x.Preds[0]
 			if iff, ok := p.Instrs[len(p.Instrs)-1].(*ssa.If); ok && p.Succs[0] != p.Succs[1] {
 				pr.condFacts(fs, iff.Cond, p.Succs[0] == x, "branch "+pr.P.pos(instrPos(iff)))
+				pr.nilEdgeFacts(fs, iff.Cond, p.Succs[0] == x)
 			}
 		}
 	}
@@ -945,4 +943,405 @@ func short(s string) string {
 		return s[:57] + "..."
 	}
 	return s
+}
+
+// ---------------------------------------------------------------------------
+// canonical loads: two loads of the same address yield the same value when the
+// earlier dominates the later and nothing that can write that location lies between.
+
+func (pr *Prover) killsLoad(in ssa.Instruction, ld *ssa.UnOp) bool {
+	switch x := in.(type) {
+	case *ssa.Store:
+		switch ad := ld.X.(type) {
+		case *ssa.FieldAddr:
+			fv := fieldOfAddr(ad)
+			if sa, ok := x.Addr.(*ssa.FieldAddr); ok {
+				return fieldOfAddr(sa) == fv
+			}
+			// whole-struct store through a pointer of the struct type
+			if pt, ok := x.Addr.Type().Underlying().(*types.Pointer); ok {
+				if apt, ok := ad.X.Type().Underlying().(*types.Pointer); ok && types.Identical(pt.Elem(), apt.Elem()) {
+					return true
+				}
+				// store through a pointer to the field's own type (e.g. *a = ... with a *UnknownAttributes)
+				if types.Identical(pt.Elem(), fv.Type()) {
+					return true
+				}
+			}
+			return false
+		case *ssa.Alloc:
+			return x.Addr == ssa.Value(ad)
+		default:
+			// unknown address shape: any store of a value of the same type kills
+			if pt, ok := x.Addr.Type().Underlying().(*types.Pointer); ok {
+				return types.Identical(pt.Elem(), ld.Type())
+			}
+			return true
+		}
+	case *ssa.Call:
+		return pr.callKills(x.Common(), ld)
+	case *ssa.Defer, *ssa.RunDefers:
+		return true
+	case *ssa.Go:
+		return true
+	}
+	return false
+}
+
+func (pr *Prover) callKills(cc *ssa.CallCommon, ld *ssa.UnOp) bool {
+	if _, isB := cc.Value.(*ssa.Builtin); isB {
+		return false // builtins write bytes/maps, never struct fields or locals
+	}
+	if a, ok := ld.X.(*ssa.Alloc); ok {
+		// a local cell is only written by this function or by closures capturing it
+		captured := false
+		for _, r := range *a.Referrers() {
+			if mc, ok := r.(*ssa.MakeClosure); ok {
+				fn := mc.Fn.(*ssa.Function)
+				for i, b := range mc.Bindings {
+					if b == ssa.Value(a) && closureWritesFreeVar(fn, i) {
+						captured = true
+					}
+				}
+			}
+		}
+		return captured
+	}
+	if cc.IsInvoke() {
+		// hash.Hash / io interfaces write bytes only
+		if n, ok := cc.Value.Type().(*types.Named); ok && n.Obj().Pkg() != nil {
+			switch n.Obj().Pkg().Path() {
+			case "hash", "io":
+				return false
+			}
+		}
+		return true
+	}
+	sc := cc.StaticCallee()
+	if sc == nil {
+		return true
+	}
+	if pr.P.isModuleFn(sc) {
+		fa, ok := ld.X.(*ssa.FieldAddr)
+		if !ok {
+			return true
+		}
+		mod, unknown := modFields(pr.P, sc, map[*ssa.Function]bool{})
+		if unknown {
+			return true
+		}
+		return mod[fieldOfAddr(fa)]
+	}
+	return !extAllowed(sc) // EXT functions touch bytes and their own state only
+}
+
+func closureWritesFreeVar(fn *ssa.Function, idx int) bool {
+	if idx >= len(fn.FreeVars) {
+		return true
+	}
+	fv := fn.FreeVars[idx]
+	w := false
+	for _, r := range *fv.Referrers() {
+		if st, ok := r.(*ssa.Store); ok && st.Addr == ssa.Value(fv) {
+			w = true
+		}
+	}
+	return w
+}
+
+func (pr *Prover) canonLoad(ld *ssa.UnOp) *ssa.UnOp {
+	if c, ok := pr.canon[ld]; ok {
+		return c
+	}
+	pr.canon[ld] = ld
+	addr := pr.K.Key(ld.X)
+	best := ld
+	for _, b := range pr.Fn.Blocks {
+		for _, in := range b.Instrs {
+			o, ok := in.(*ssa.UnOp)
+			if !ok || o == ld || o.Op != token.MUL || !instrDominates(o, ld) {
+				continue
+			}
+			if pr.K.Key(o.X) != addr {
+				continue
+			}
+			// any killer between o and ld?
+			killed := false
+			for _, kb := range pr.Fn.Blocks {
+				for _, kin := range kb.Instrs {
+					if kin == ssa.Instruction(o) || kin == ssa.Instruction(ld) {
+						continue
+					}
+					if !pr.killsLoad(kin, ld) {
+						continue
+					}
+					if reachableFrom(o, kin) && reachableAvoid(kin, ld, o) {
+						killed = true
+					}
+				}
+			}
+			if !killed {
+				c := pr.canonLoad(o)
+				if instrDominates(c, best) || best == ld {
+					best = c
+				}
+			}
+		}
+	}
+	pr.canon[ld] = best
+	return best
+}
+
+// ---------------------------------------------------------------------------
+// F4: nil-return conditions of module functions returning error
+
+type paramCond struct {
+	A, B   int   // parameter indices; -1 = constant
+	CA, CB int64 // constants when index is -1
+	Op     token.Token
+}
+
+var nilCondCache = map[*ssa.Function][]paramCond{}
+
+// nilReturnConds: conditions over integer parameters that hold whenever fn returns a nil error.
+func nilReturnConds(p *Prog, fn *ssa.Function) []paramCond {
+	if fn == nil || fn.Blocks == nil || !p.isModuleFn(fn) {
+		return nil
+	}
+	if c, ok := nilCondCache[fn]; ok {
+		return c
+	}
+	nilCondCache[fn] = nil
+	idx := errorResultIndex(fn)
+	if idx < 0 || fn.Signature.Results().Len() != 1 {
+		return nil
+	}
+	var nilRets []*ssa.Return
+	for _, ret := range returnsOf(fn) {
+		v := deref(ret.Results[idx])
+		if isNilConst(v) {
+			nilRets = append(nilRets, ret)
+			continue
+		}
+		c := &PathCtx{K: newKeyer(), assign: map[string]bool{}, phiSel: map[*ssa.Phi]ssa.Value{}, P: p}
+		if c.NilState(v) != -1 {
+			return nil // a return whose nilness is unknown
+		}
+	}
+	if len(nilRets) != 1 {
+		return nil
+	}
+	paramIdx := func(v ssa.Value) (int, int64, bool) {
+		if c, ok := constInt(v); ok {
+			return -1, c, true
+		}
+		for i, pa := range fn.Params {
+			if v == ssa.Value(pa) {
+				return i, 0, true
+			}
+		}
+		return 0, 0, false
+	}
+	var out []paramCond
+	ret := nilRets[0]
+	for x := ret.Block(); x != nil; x = x.Idom() {
+		if len(x.Preds) != 1 {
+			continue
+		}
+		pp := x.Preds[0]
+		iff, ok := pp.Instrs[len(pp.Instrs)-1].(*ssa.If)
+		if !ok || pp.Succs[0] == pp.Succs[1] {
+			continue
+		}
+		pol := pp.Succs[0] == x
+		cond := iff.Cond
+		for {
+			if u, ok := cond.(*ssa.UnOp); ok && u.Op == token.NOT {
+				pol = !pol
+				cond = u.X
+				continue
+			}
+			break
+		}
+		b, ok := cond.(*ssa.BinOp)
+		if !ok || !isIntType(b.X.Type()) {
+			continue
+		}
+		ai, ca, ok1 := paramIdx(b.X)
+		bi, cb, ok2 := paramIdx(b.Y)
+		if !ok1 || !ok2 {
+			continue
+		}
+		op := b.Op
+		if !pol {
+			switch op {
+			case token.LSS:
+				op = token.GEQ
+			case token.LEQ:
+				op = token.GTR
+			case token.GTR:
+				op = token.LEQ
+			case token.GEQ:
+				op = token.LSS
+			case token.EQL:
+				op = token.NEQ
+			case token.NEQ:
+				op = token.EQL
+			}
+		}
+		out = append(out, paramCond{ai, bi, ca, cb, op})
+	}
+	nilCondCache[fn] = out
+	return out
+}
+
+// nilEdgeFacts: the edge condition is `r == nil` / `r != nil` for the error result r of a
+// module call; on the nil edge the callee's nil-return conditions hold for the actual arguments.
+func (pr *Prover) nilEdgeFacts(fs *factSet, cond ssa.Value, pol bool) {
+	for {
+		if u, ok := cond.(*ssa.UnOp); ok && u.Op == token.NOT {
+			pol = !pol
+			cond = u.X
+			continue
+		}
+		break
+	}
+	b, ok := cond.(*ssa.BinOp)
+	if !ok || (b.Op != token.EQL && b.Op != token.NEQ) {
+		return
+	}
+	var r ssa.Value
+	if isNilConst(b.Y) {
+		r = b.X
+	} else if isNilConst(b.X) {
+		r = b.Y
+	} else {
+		return
+	}
+	isNil := (b.Op == token.EQL) == pol
+	if !isNil {
+		return
+	}
+	call, ok := deref(r).(*ssa.Call)
+	if !ok {
+		return
+	}
+	sc := call.Call.StaticCallee()
+	if sc == nil || pr.nilSum == nil {
+		return
+	}
+	conds := pr.nilSum(sc)
+	args := call.Call.Args
+	for _, c := range conds {
+		get := func(i int, cst int64) (lin, bool) {
+			if i < 0 {
+				return lin{zeroTerm, cst}, true
+			}
+			if i >= len(args) {
+				return lin{}, false
+			}
+			pr.defFacts(fs, args[i], 0)
+			return pr.lin(args[i]), true
+		}
+		x, ok1 := get(c.A, c.CA)
+		y, ok2 := get(c.B, c.CB)
+		if !ok1 || !ok2 {
+			continue
+		}
+		why := "nil-return condition of " + fnName(sc)
+		switch c.Op {
+		case token.LSS:
+			fs.le(x, y, -1, why)
+		case token.LEQ:
+			fs.le(x, y, 0, why)
+		case token.GTR:
+			fs.le(y, x, -1, why)
+		case token.GEQ:
+			fs.le(y, x, 0, why)
+		case token.EQL:
+			fs.le(x, y, 0, why)
+			fs.le(y, x, 0, why)
+		}
+	}
+}
+
+// modFields: struct fields that fn (transitively, module functions) may store to.
+// unknown is true when the closure contains a call whose effects are not known
+// (dynamic calls, interface calls into the module's own types excepted, non-EXT externals).
+var modCache = map[*ssa.Function]map[*types.Var]bool{}
+var modUnknown = map[*ssa.Function]bool{}
+
+func modFields(p *Prog, fn *ssa.Function, onStack map[*ssa.Function]bool) (map[*types.Var]bool, bool) {
+	if m, ok := modCache[fn]; ok {
+		return m, modUnknown[fn]
+	}
+	if onStack[fn] {
+		return map[*types.Var]bool{}, false
+	}
+	onStack[fn] = true
+	defer delete(onStack, fn)
+	out := map[*types.Var]bool{}
+	unknown := false
+	if fn.Blocks == nil {
+		return out, true
+	}
+	for _, cs := range p.CG().Sites[fn] {
+		cc := cs.Instr.Common()
+		if _, isB := cc.Value.(*ssa.Builtin); isB {
+			continue
+		}
+		if cs.Dynamic {
+			unknown = true
+			continue
+		}
+		if cc.IsInvoke() {
+			if n, ok := cc.Value.Type().(*types.Named); ok && n.Obj().Pkg() != nil {
+				switch n.Obj().Pkg().Path() {
+				case "hash", "io":
+					continue
+				}
+			}
+			if cs.ExtIface != "" {
+				unknown = true
+			}
+		}
+		for _, ext := range cs.External {
+			if !extAllowed(ext) {
+				unknown = true
+			}
+		}
+		for _, g := range cs.Callees {
+			m, u := modFields(p, g, onStack)
+			for k := range m {
+				out[k] = true
+			}
+			if u {
+				unknown = true
+			}
+		}
+	}
+	eachInstr(fn, func(b *ssa.BasicBlock, i int, in ssa.Instruction) {
+		if st, ok := in.(*ssa.Store); ok {
+			if fa, ok := st.Addr.(*ssa.FieldAddr); ok {
+				out[fieldOfAddr(fa)] = true
+			} else if _, isAlloc := st.Addr.(*ssa.Alloc); !isAlloc {
+				if _, isIdx := st.Addr.(*ssa.IndexAddr); !isIdx {
+					// store through an arbitrary pointer (parameter, free variable): could be a field
+					if pt, ok := st.Addr.Type().Underlying().(*types.Pointer); ok {
+						if _, isStruct := pt.Elem().Underlying().(*types.Struct); isStruct {
+							unknown = true
+						} else {
+							// pointer to a named non-struct (e.g. *UnknownAttributes): fields of that type
+							out[nil] = true
+							unknown = unknown || false
+							_ = pt
+						}
+					}
+				}
+			}
+		}
+	})
+	modCache[fn] = out
+	modUnknown[fn] = unknown
+	return out, unknown
 }
